@@ -696,6 +696,7 @@ def rule_no_answer_arms(ctx, res, d):
 
 
 def run(ctx, res):
+    common.rule_no_addr_canonicalisation(ctx, res)
     d = common.Dispatcher(ctx)
     rule_arms(ctx, res, d)
     rule_one_reply(ctx, res, d)
